@@ -592,7 +592,11 @@ Record oview := {
 Record oreq := {
   oq_nts : bool;
   oq_ireq : bool;            (* the outstanding request is an interleaved one *)
-  oq_org : time64; oq_rx : time64; oq_tx : time64;   (* its three timestamp fields *)
+  oq_rx : time64; oq_tx : time64;   (* its receive and transmit timestamp fields, which a response may echo *)
+  oq_prev : list time64;     (* the receive timestamp field of the datagram on which the LAST SUCCESSFUL measurement of
+                                this client was based (C05_basis; a list because several delivered datagrams may
+                                qualify; empty before the first success).  Not taken from the request: what the
+                                request quotes as origin is the client's own bookkeeping *)
   oq_ref : Z                 (* any time within 2^31 s of the exchange: resolves the NTP era *)
 }.
 
@@ -616,9 +620,10 @@ Definition o_clauses (q : oreq) (d : oview) (t1 t2 : Z) : bool :=
   (* the reported server transmit time is the datagram's *)
   (t2 =? time_of_time64 (o_t64 b 40) (oq_ref q)) &&
   (* the reported server receive time is the datagram's, or, for an interleaved
-     response, the one the request quotes as origin *)
+     response, that of the datagram the previous successful measurement was based
+     on: never a timestamp of a datagram that was skipped or rejected *)
   ((t1 =? time_of_time64 (o_t64 b 32) (oq_ref q)) ||
-   (inter && (t1 =? time_of_time64 (oq_org q) (oq_ref q)))) &&
+   (inter && existsb (fun p => t1 =? time_of_time64 p (oq_ref q)) (oq_prev q))) &&
   (* transmit time not before the receive time it is combined with *)
   (t1 <=? t2).
 
@@ -637,4 +642,24 @@ Definition C05_ok (q : oreq) (ds : list oview) (o : oobs) : bool :=
   | ObsError => true
   | ObsOffset t0 t1 t2 t3 off =>
       existsb (fun d => o_clauses q d t1 t2) ds && (off =? clock_offset t0 t1 t2 t3)
+  end.
+
+(* the oracle's own history: after an exchange that reported an error the basis
+   of the last successful measurement stays what it was; after a success it is
+   the receive timestamp field of the delivered datagram(s) that meet the
+   clauses for the reported (t1, t2) *)
+Definition C05_basis (q : oreq) (ds : list oview) (o : oobs) : list time64 :=
+  match o with
+  | ObsError => oq_prev q
+  | ObsOffset t0 t1 t2 t3 off =>
+      map (fun d => o_t64 (o_payload d) 32) (filter (fun d => o_clauses q d t1 t2) ds)
+  end.
+
+(* a sequence of exchanges of one client, each with the request that was
+   outstanding (without oq_prev: the oracle supplies it), the delivered
+   datagrams and what the client reported *)
+Fixpoint C05_run (prev : list time64) (xs : list ((list time64 -> oreq) * list oview * oobs)) : bool :=
+  match xs with
+  | [] => true
+  | (mk, ds, o) :: rest => C05_ok (mk prev) ds o && C05_run (C05_basis (mk prev) ds o) rest
   end.
